@@ -108,3 +108,28 @@ def frame_chain(eng, frame_key):
         out.append((fr.parent, fr.call_block))
         fr = fr.parent
     return out
+
+
+def pred_means(pred, a, rel, b, usize_bits=64):
+    """does boolean term `pred` mean exactly (a rel b) over the integers?  rel in {'ge','gt','le','lt'}.
+    Decided with linear entailment in both directions, so `!(x < t)`, `x >= t`, `t <= x` are the same predicate."""
+    from .. import lin
+    from .. import query as Q
+    def goal(L, neg):
+        la, lb = L.lin(a), L.lin(b)
+        d = la.add(lb, -1)       # a - b
+        r = rel
+        if neg:
+            r = {"ge": "lt", "gt": "le", "le": "gt", "lt": "ge"}[rel]
+        if r == "ge":
+            return d.scale(-1)                 # b - a <= 0
+        if r == "gt":
+            return d.scale(-1).add(lin.Lin(1))
+        if r == "le":
+            return d
+        return d.add(lin.Lin(1))
+    L1 = lin.Ctx(usize_bits)
+    L1.add_fact(Q.norm_fact((pred, "eq", 1)))
+    L0 = lin.Ctx(usize_bits)
+    L0.add_fact(Q.norm_fact((pred, "eq", 0)))
+    return lin.entails(L1, goal(L1, False)) and lin.entails(L0, goal(L0, True))
